@@ -74,7 +74,7 @@ class C35(Check):
     theorems = ("C35_buffer_step_conserves", "C35_buffer_history_conserves", "C35_buffer_bounded",
                 "C35_pop_best_is_max", "C35_pop_best_none_iff_empty", "C35_push_prio_keeps_best",
                 "C35_heap_insert", "C35_heap_remove", "C35_heap_split", "C35_heap_top_is_max",
-                "C35_heap_history", "C35_hiBit")
+                "C35_heap_step", "C35_heap_history", "C35_hiBit")
     comp = "heapbuf"
     extract_file = "theories/Extract/Extract_HeapBuf.v"
     extracted = ("heapbuf",)
@@ -256,6 +256,8 @@ class C35(Check):
 
     def _judge(self, case, obs):
         """(class, text) when the property is violated on this observation, else None"""
+        if obs.startswith("<skipped"):
+            return None     # not run: the harness gave up after repeated crashes (reported on those cases)
         if obs.startswith("<crash") or obs.startswith("<impl"):
             return ("crash", "the implementation crashed or hung on a legal history: " + obs[:60])
         try:
